@@ -1249,6 +1249,11 @@ def _ordereddict(I, args, kw):
     return BUILTINS['dict'].fn(I, args, kw)       # A7: dict keeps insertion order
 
 
+@ext('traceback.format_exc')
+def _format_exc(I, args, kw):
+    return Opaque('str')
+
+
 @ext('six.next')
 def _sixnext(I, args, kw): return BUILTINS['next'].fn(I, args, kw)
 
